@@ -74,7 +74,7 @@ type mock struct {
 	attempts map[int64]int
 	injected int
 	calls    int
-	answers  int // successful UploadGetFile answers (each carries the type)
+	answers  int      // successful UploadGetFile answers (each carries the type)
 	odd      []string // requests that the API does not allow
 }
 
@@ -353,5 +353,11 @@ func main() {
 		}
 		c.Set("cases", len(ws))
 		c.Set("largest_file_bytes", large)
+		// E-SCHED companion: worker/writer interleavings on 1-4 part downloads (8 scenarios x 2 shards; thorough 10 x 2)
+		units := 16
+		if c.Thorough() {
+			units = 20
+		}
+		c.ForkSched(units, 16)
 	})
 }
